@@ -684,6 +684,7 @@ impl Formatter {
         x => format!("{{{:?}}}", x)
       };
       let formatted_comment = match cmmnt {
+        Some(cmmt) if !self.html => format!(" {}", self.comment(cmmt)),
         Some(cmmt) => self.comment(cmmt),
         None => String::new(),
       };
@@ -1443,11 +1444,12 @@ impl Formatter {
   }
 
   pub fn comment(&mut self, node: &Comment) -> String {
-    let comment_text = self.paragraph(&node.paragraph);
     if self.html {
+      let comment_text = self.paragraph(&node.paragraph);
       format!("<span class=\"mech-comment\"><span class=\"mech-comment-sigil\">--</span>{}</span>", comment_text)
     } else {
-      format!("{}\n",comment_text)
+      // The sigil is not part of the tree; the line is ended by whoever emits the comment.
+      format!("--{}", self.inline_paragraph(&node.paragraph))
     }
   }
 
@@ -1544,6 +1546,7 @@ impl Formatter {
         x => todo!("Unhandled MechCode: {:#?}", x),
       };
       let formatted_comment = match cmmnt {
+        Some(cmmt) if !self.html => format!(" {}", self.comment(cmmt)),
         Some(cmmt) => self.comment(cmmt),
         None => String::new(),
       };
